@@ -425,6 +425,9 @@ func (h *harness) report(cfg *sconfig, chain []sym, ci int, caseID string, frame
 	if c.phase == "native-transfer" || c.phase == "payment-from" {
 		sig += ":in-native-transfer"
 	}
+	if c.target >= 0 && len(cfg.targets[c.target]) != 20 {
+		sig += ":public-key-argument"
+	}
 	key := sig + "|" + cfg.part + "|" + cfg.shape
 	if v, ok := sigCache.Load(key); ok {
 		h.run.Violation(v.(string), caseID, "", nil) // counted under the signature already witnessed
